@@ -349,6 +349,19 @@ Fixpoint pcalls_eqb (a b : list pcall) : bool :=
   | _, _ => false
   end.
 
+(* the same provider calls the same number of times, in any order (runs under a completion order that is not
+   first-in first-out issue them in another order) *)
+Fixpoint remove_pcall (x : pcall) (l : list pcall) : option (list pcall) :=
+  match l with
+  | [] => None
+  | y :: t => if pcall_eqb x y then Some t else option_map (cons y) (remove_pcall x t)
+  end.
+Fixpoint pcalls_permb (a b : list pcall) : bool :=
+  match a with
+  | [] => match b with [] => true | _ => false end
+  | x :: t => match remove_pcall x b with Some b' => pcalls_permb t b' | None => false end
+  end.
+
 (* the non-learnt clauses of a dump, without the root clause *)
 Definition encoder_clauses (db : list cl) : list cl :=
   filter (fun c => negb (is_learnt c) && match ck c with KRoot => false | _ => true end) db.
